@@ -329,6 +329,8 @@ def run(ctx):
     implications(ctx, g)
     walk_shape(ctx, g)
     canonicity_slots(ctx, g)
+    ctx.clauses.append("storage layout of the operation table: size * (dim + 1) cells, idx a bijection, grow() consistent (T4, expressions evaluated)")
+    storage_layout(ctx, "T4-storage-layout", g)
     ctx.clauses.append("canonicity comparison and next-undefined search look at every operation 0..=dim() (T4)")
     gb = [b for d, b in sorted(ctx.facts.bodies.items()) if d.startswith("generators::dset_generators::") and "{closure" not in d]
     ctx.scan(gb)
